@@ -323,11 +323,13 @@ func (c *concCtx) shared(mi *msgInfo, v *V, iters int, deadline time.Time) {
 	snapBefore := c.snapshot(sharedMsg)
 	seq := make([]string, len(ops))
 	priv0 := c.lib.G(mi, v)
+	prev := snapBefore
 	for i, op := range ops {
 		seq[i] = runOp(op, sharedMsg, priv0)
 		after := c.snapshot(sharedMsg)
-		o.withKey("conc/"+id+"/"+op.name+"/writes").prop("C11", after == snapBefore && c.lib.rawG(mi, sharedMsg) == rawBefore,
-			fmt.Sprintf("read-only operation %s writes to the message struct of %s (sequential run): %s; value %s", op.name, id, firstDiff(snapBefore, after), v))
+		o.withKey("conc/"+id+"/"+op.name+"/writes").prop("C11", after == prev,
+			fmt.Sprintf("read-only operation %s writes to the message struct of %s (sequential run): %s; value %s", op.name, id, firstDiff(prev, after), v))
+		prev = after
 		o.withKey("conc/"+id+"/"+op.name+"/panic").prop("C11", !strings.HasPrefix(seq[i], "panic: "), fmt.Sprintf("read-only operation %s on %s panics: %s; value %s", op.name, id, seq[i], v))
 		again := runOp(op, sharedMsg, priv0)
 		o.withKey("conc/"+id+"/"+op.name+"/unstable").prop("C11", again == seq[i], fmt.Sprintf("read-only operation %s on %s gives two answers in a sequential run: %.300q then %.300q; value %s", op.name, id, seq[i], again, v))
